@@ -113,6 +113,7 @@ var opAlphabet = []string{
 	`{users {greeting(times: 2)}}`,      // argument value
 	`{users {greeting}}`,                // same field, other argument value
 	`{me {friends {reviews {body}} favorite {title}}}`, // u2,u1 through another path + Product entity
+	`{me {friends {reviews {stars}}}}`,                 // (u2,u1): covered by the keys of the users batch; u2 is a null entity in sg1
 }
 
 func layout(s *fedlab.Supergraph) *fedlab.Layout {
@@ -135,6 +136,14 @@ func newLabs() (*labs, error) {
 	u := fedlab.SCoreUniverse(s)
 	// only error-free data: the universe's non-null null would make every users
 	// batch an "errors" response; keep it for the explicit errors class instead
+	// u2 is not known to subgraph 1 (which owns reviews / greeting / Product):
+	// it answers null for it inside a batch, in a non-last position
+	for _, o := range u.Objs["User"] {
+		if o["id"] == "u2" {
+			o["reviews"], o["greeting"] = nil, nil
+		}
+	}
+	nullEntity := func(sg int, tn string, e fedlab.Obj) bool { return sg == 1 && tn == "User" && e["id"] == "u2" }
 	a, err := fedlab.NewLab(layout(s), u, fedlab.LabOptions{})
 	if err != nil {
 		return nil, err
@@ -143,6 +152,7 @@ func newLabs() (*labs, error) {
 	if err != nil {
 		return nil, err
 	}
+	a.Sim.NullEntity, b.Sim.NullEntity = nullEntity, nullEntity
 	return &labs{a, b}, nil
 }
 
@@ -495,6 +505,31 @@ func maxOf(xs []int) int {
 	return m
 }
 
+var directives = []string{"public", "private", "no-store", "no-cache", `no-cache="x"`, "max-age=0", "max-age=60", "max-age=-1", "max-age", "s-maxage=0", "s-maxage=10", "s-maxage=x", "MAX-AGE=5", "x=1", "must-revalidate"}
+
+// checkTTLDirectives: every sequence of <= k whole directives, joined by ", "
+// or split over two header lines at every boundary.
+func checkTTLDirectives(run *vk.Run, judge func(lines []string)) {
+	k := vk.Pick(run, 3, 4)
+	run.Bound("header_directives", k)
+	var rec func(cur []string)
+	rec = func(cur []string) {
+		if len(cur) > 0 {
+			judge([]string{strings.Join(cur, ", ")})
+			for i := 1; i < len(cur); i++ {
+				judge([]string{strings.Join(cur[:i], ","), strings.Join(cur[i:], " , ")})
+			}
+		}
+		if len(cur) == k {
+			return
+		}
+		for _, d := range directives {
+			rec(append(cur, d))
+		}
+	}
+	rec(nil)
+}
+
 func checkTTLStrings(run *vk.Run) {
 	k := vk.Pick(run, 4, 5)
 	run.Bound("header_atoms", k)
@@ -546,6 +581,7 @@ func checkTTLStrings(run *vk.Run) {
 			}
 		}
 	}
+	checkTTLDirectives(run, judge)
 	rec = func(cur []string) {
 		if len(cur) > 0 {
 			s := strings.Join(cur, "")
